@@ -100,3 +100,97 @@ Inductive G : nat -> list token -> expr -> Prop :=
     G l ts1 a -> G (S l) ts2 b -> G l (ts1 ++ t :: ts2) (mk a b)
 | G_if ts1 ts2 ts3 c a b : G 1 ts1 c -> G 0 ts2 a -> G 0 ts3 b ->
     G 0 (ts1 ++ TIf :: ts2 ++ TElse :: ts3) (If c a b).
+
+(* ------------------------------------------------------------------ *)
+(* The lexer of plural.y (function yylex), transcribed clause by clause from the C text; the input
+   is the sequence of characters of the C string (code points; the terminating NUL is implicit, so
+   reading past the end yields 0).  The tokens of plural.y map to the token type as follows:
+     NUMBER(n) -> TInt n d (d = number of digits read; plural.y does not have it, G ignores it),
+     EQUOP2(equal / not_equal) -> TEq false / TEq true,  CMPOP2(op) -> TCmp op,
+     ADDOP2(plus / minus) -> TAddSub false / true,  MULOP2(op) -> TMulDiv op,
+     '|' '&' '!' 'n' '?' ':' '(' ')' -> TOr TAnd TNot TVar TIf TElse TLpar TRpar.
+   Two deliberate idealisations, both documented in notes/C04.md:
+   - NUMBER accumulates in `unsigned long` in C (wrapping at 2^W); here the value is the unbounded
+     decimal value.  A constant >= 2^32 is outside the range in which C04 compares evaluation anyway
+     (InRange demands every constant < M).
+   - yylex returns YYEOF at ';', newline and NUL *without consuming them*, leaving arg->cp there; the
+     remainder of the string is simply not read by plural.y.  The tool never passes such characters
+     (the expression is cut out by `plural=([^;]+);?` from one header line), so membership in the
+     plural language is defined below as: yylex/yyparse accept AND the whole string was consumed. *)
+
+Inductive ytok := YEOF | YERR | YTOK (t : token).
+
+(* exp[0] >= '0' && exp[0] <= '9' *)
+Definition c_isdigit (c : N) : bool := ((48 <=? c) && (c <=? 57))%N.
+
+(* while (exp[0] == ' ' || exp[0] == '\t') ++exp;   (exp[0] == '\0' ends the loop with YYEOF) *)
+Fixpoint skip_blanks (s : list N) : list N :=
+  match s with
+  | c :: r => if ((c =? 32) || (c =? 9))%N then skip_blanks r else s
+  | [] => []
+  end.
+
+(* while (exp[0] >= '0' && exp[0] <= '9') { n *= 10; n += exp[0] - '0'; ++exp; } *)
+Fixpoint number (n : Z) (d : N) (s : list N) : Z * N * list N :=
+  match s with
+  | c :: r => if c_isdigit c then number (n * 10 + Z.of_N (c - 48)) (d + 1)%N r else (n, d, s)
+  | [] => (n, d, [])
+  end.
+
+(* exp[0] of a NUL-terminated string *)
+Definition peek (s : list N) : N := hd 0%N s.
+
+(* result = *exp++; switch (result) { ... }   -- c is result, exp the string after it *)
+Definition yytoken (c : N) (exp : list N) : ytok * list N :=
+  (if c_isdigit c then                                     (* case '0' ... '9' *)
+     let '(n, d, exp') := number (Z.of_N (c - 48)) 1%N exp in (YTOK (TInt n d), exp')
+   else if c =? 61 then                                    (* '=' : must be "==" *)
+     if peek exp =? 61 then (YTOK (TEq false), tl exp) else (YERR, exp)
+   else if c =? 33 then                                    (* '!' : "!=" or '!' *)
+     if peek exp =? 61 then (YTOK (TEq true), tl exp) else (YTOK TNot, exp)
+   else if c =? 38 then                                    (* '&' : must be doubled *)
+     if peek exp =? 38 then (YTOK TAnd, tl exp) else (YERR, exp)
+   else if c =? 124 then                                   (* '|' : must be doubled *)
+     if peek exp =? 124 then (YTOK TOr, tl exp) else (YERR, exp)
+   else if c =? 60 then                                    (* '<' : "<=" or '<' *)
+     if peek exp =? 61 then (YTOK (TCmp CLe), tl exp) else (YTOK (TCmp CLt), exp)
+   else if c =? 62 then                                    (* '>' : ">=" or '>' *)
+     if peek exp =? 61 then (YTOK (TCmp CGe), tl exp) else (YTOK (TCmp CGt), exp)
+   else if c =? 42 then (YTOK (TMulDiv Mult), exp)         (* '*' *)
+   else if c =? 47 then (YTOK (TMulDiv Div), exp)          (* '/' *)
+   else if c =? 37 then (YTOK (TMulDiv Mod), exp)          (* '%' *)
+   else if c =? 43 then (YTOK (TAddSub false), exp)        (* '+' *)
+   else if c =? 45 then (YTOK (TAddSub true), exp)         (* '-' *)
+   else if c =? 110 then (YTOK TVar, exp)                  (* 'n' *)
+   else if c =? 63 then (YTOK TIf, exp)                    (* '?' *)
+   else if c =? 58 then (YTOK TElse, exp)                  (* ':' *)
+   else if c =? 40 then (YTOK TLpar, exp)                  (* '(' *)
+   else if c =? 41 then (YTOK TRpar, exp)                  (* ')' *)
+   else if (c =? 59) || (c =? 10) || (c =? 0) then         (* ';' '\n' '\0' : --exp; YYEOF *)
+     (YEOF, c :: exp)
+   else (YERR, exp))%N.                                    (* default: YYERRCODE *)
+
+(* one call of yylex: the token and the new arg->cp *)
+Definition yylex1 (s : list N) : ytok * list N :=
+  match skip_blanks s with
+  | [] => (YEOF, [])
+  | c :: exp => yytoken c exp
+  end.
+
+(* yyparse calls yylex until YYEOF; YYERRCODE matches no production (plural.y has no error rules),
+   so a token stream exists only if no call returns it.
+   Yylex s ts s' : the calls on s return the tokens ts, then YYEOF with arg->cp = s'. *)
+Inductive Yylex : list N -> list token -> list N -> Prop :=
+| Y_eof s s' : yylex1 s = (YEOF, s') -> Yylex s [] s'
+| Y_tok s t s1 ts s' : yylex1 s = (YTOK t, s1) -> Yylex s1 ts s' -> Yylex s (t :: ts) s'.
+
+(* s is a plural expression: plural.y accepts it and has read all of it *)
+Definition in_plural_language (s : list N) : Prop := exists ts e, Yylex s ts [] /\ G 0 ts e.
+(* ... and its structure *)
+Definition plural_tree (s : list N) (e : expr) : Prop := exists ts, Yylex s ts [] /\ G 0 ts e.
+
+(* What plural.y accepts when it is allowed to stop early at ';', newline or NUL (its actual
+   behaviour on the rest of a header field), and the strings for which there is no difference. *)
+Definition plural_y_accepts (s : list N) : Prop := exists ts s' e, Yylex s ts s' /\ G 0 ts e.
+Definition is_terminator (c : N) : bool := ((c =? 59) || (c =? 10) || (c =? 0))%N.
+Definition no_terminator (s : list N) : Prop := forall c, In c s -> is_terminator c = false.
